@@ -406,6 +406,44 @@ def check_population_sizes(h: Harness):
                        f"order, or unevaluated members", {"n": n})
 
 
+def check_population_object_read_again(h: Harness):
+    """a Population object is a collection: counted, looped over, or handed to one step, it can be handed to a step (again) and the step
+    still yields exactly target_size individuals -- all of them members of that population"""
+    from geneticengine.algorithms.gp.operators.elitism import ElitismStep
+    from geneticengine.algorithms.gp.operators.novelty import NoveltyStep
+    from geneticengine.algorithms.gp.operators.selection import TournamentSelection
+    rng = h.rng
+    rep = StubRep(1)
+    problem = sc.make_problem([False])
+    for trial in range(h.n(30, 200)):
+        n = rng.randint(2, 9)
+        inds = [Individual((i, rng.randint(0, 5), (rng.randint(0, 5),)), rep) for i in range(n)]
+        pop = sc.as_form("population", inds, problem)
+        before = rng.choice(["len(list(pop))", "for-loop", "a step", "nothing"])
+        if before == "len(list(pop))":
+            len(list(pop))
+        elif before == "for-loop":
+            for _ in pop:
+                pass
+        elif before == "a step":
+            sc.run_step(ElitismStep(), problem, rep, NativeRandomSource(1), pop, 1)
+        for sname, mk in (("ElitismStep", ElitismStep), ("TournamentSelection(2)", lambda: TournamentSelection(2, with_replacement=True)),
+                          ("ParallelStep([Elitism, Tournament], [1, 2])", lambda: ParallelStep([ElitismStep(), TournamentSelection(2, with_replacement=True)], [1, 2]))):
+            k = rng.randint(1, n)
+            res = sc.run_step(mk(), problem, rep, NativeRandomSource(rng.randrange(10**6)), pop, k)
+            h.count(f"population-object-read-again:{before}")
+            h.seen(f"population-again:{trial}:{sname}:{before}:{n}:{k}", nontrivial=before != "nothing")
+            replay = {"n": n, "k": k, "step": sname, "before": before}
+            if isinstance(res, str):
+                h.fail("Population.__iter__", "raises", f"{sname}.apply on a Population object of {n} individuals (read before: {before}), target_size={k}: {res}", replay)
+                break
+            h.holds("Population.__iter__", "wrong-count", ["prop_count", k, len(res)],
+                    f"{sname}.apply on a Population object of {n} individuals that had been read before ({before}; then by the steps before this one), "
+                    f"target_size={k}, yielded {len(res)} individuals", replay, nontrivial=True)
+            if any(not any(x is i for i in inds) for x in res):
+                h.fail("Population.__iter__", "not-the-given-individuals", f"{sname}.apply on a Population object yielded an individual that is not a member", replay)
+
+
 def check_cooperative_gp(h: Harness):
     """CooperativeGP evolves two species in turn, each by a genetic-programming run with ITS configured population size: every
     generation of species k's runs -- what the step receives, what it is asked for and what it yields -- has population{k}_size
@@ -746,6 +784,7 @@ def run(h: Harness):
     check_evaluate_step(h)
     check_initialisers(h)
     check_population_sizes(h)
+    check_population_object_read_again(h)
     check_cooperative_gp(h)
     check_time_budgets(h)
     check_gp_stub(h)
